@@ -1109,7 +1109,7 @@ theorem fillLoop_progress (c : Consts) (hc : ConstsOk c) (pre : List Msg) (tail 
     (hpl : ∀ m ∈ pre, Plain c r.delims r.failOnErr m.line)
     (hr : Ready r) (hflat : r.src.flatten = wireAll c (pre.map Msg.line) ++ tail)
     (fuel : Nat) (log : List (Bool × Bytes)) :
-    ∃ r', fillLoop c (pre.length + fuel) r true log = fillLoop c fuel r' true (log ++ progressOf pre) ∧
+    ∃ r', fillLoop c none (pre.length + fuel) r true log = fillLoop c none fuel r' true (log ++ progressOf pre) ∧
       Ready r' ∧ r'.src.flatten = tail ∧ r'.delims = r.delims ∧ r'.failOnErr = r.failOnErr := by
   induction pre generalizing r log with
   | nil =>
@@ -1169,6 +1169,7 @@ def pendingOf (s : SB) : Bytes :=
 /-- invariant of `WithSidebands` while messages `rem`, a flush and `rest` are still to be read -/
 structure SBInv (c : Consts) (s : SB) (rem : List Msg) (rest : Bytes) : Prop where
   handler : s.handler = true
+  noInterrupt : s.interruptAt = none
   ready : Ready s.r
   flat : s.r.src.flatten = wireAll c (rem.map Msg.line) ++ (wire c .flush ++ rest)
   plain : ∀ m ∈ rem, Plain c s.r.delims s.r.failOnErr m.line
@@ -1222,7 +1223,7 @@ theorem fillBuf_data (c : Consts) (hc : ConstsOk c) (s : SB) (pre post : List Ms
   have hbuf := h9 trivial
   obtain ⟨hdne, hdlen⟩ := hdv
   simp only [Msg.payload] at hdne hdlen
-  have hloop : fillLoop c (fillFuel s.r) s.r true s.log =
+  have hloop : fillLoop c none (fillFuel s.r) s.r true s.log =
       (.ok (c.u16HexBytes + 1) d.length, (readLine c r').2, s.log ++ progressOf pre) := by
     rw [hfuel, e1]
     conv => lhs; unfold fillLoop
@@ -1238,9 +1239,9 @@ theorem fillBuf_data (c : Consts) (hc : ConstsOk c) (s : SB) (pre post : List Ms
     simp [this]
   have hwire := (wire_data c hc' ((1 : UInt8) :: d) hd.1).1
   refine ⟨⟨(readLine c r').2, s.handler, c.u16HexBytes + 1, d.length + (c.u16HexBytes + 1),
-    s.log ++ progressOf pre⟩, ?_, ?_, ?_, ?_, rfl⟩
+    s.log ++ progressOf pre, s.interruptAt⟩, ?_, ?_, ?_, ?_, rfl⟩
   · unfold fillBuf
-    rw [if_pos hge, h.handler, hloop]
+    rw [if_pos hge, h.handler, h.noInterrupt, hloop]
     simp only
     unfold bufSlice
     rw [hbuf]
@@ -1254,6 +1255,7 @@ theorem fillBuf_data (c : Consts) (hc : ConstsOk c) (s : SB) (pre post : List Ms
     simp [u16ToHex_length]
   · exact {
       handler := h.handler
+      noInterrupt := h.noInterrupt
       ready := ⟨h2, by rw [h6]; exact e2.noPeek, h5⟩
       flat := h4
       plain := by intro m hm; rw [h8, h7, e4, e5]; exact h.plain m (by simp [hm])
@@ -1290,7 +1292,7 @@ theorem fillBuf_eof (c : Consts) (hc : ConstsOk c) (s : SB) (pre : List Msg) (re
     unfold lineOutcome; rw [e4, h.flushDelim]; simp
   rw [ho] at h1 h2 h3
   simp only at h1 h2 h3
-  have hloop : fillLoop c (fillFuel s.r) s.r true s.log =
+  have hloop : fillLoop c none (fillFuel s.r) s.r true s.log =
       (.ok 0 0, (readLine c r').2, s.log ++ progressOf pre) := by
     rw [hfuel, e1]
     conv => lhs; unfold fillLoop
@@ -1299,9 +1301,9 @@ theorem fillBuf_eof (c : Consts) (hc : ConstsOk c) (s : SB) (pre : List Msg) (re
     simp only at h1
     subst h1
     rfl
-  refine ⟨⟨(readLine c r').2, s.handler, 0, 0 + 0, s.log ++ progressOf pre⟩, ?_, rfl, h3, h2, h4⟩
+  refine ⟨⟨(readLine c r').2, s.handler, 0, 0 + 0, s.log ++ progressOf pre, s.interruptAt⟩, ?_, rfl, h3, h2, h4⟩
   unfold fillBuf
-  rw [if_pos hge, h.handler, hloop]
+  rw [if_pos hge, h.handler, h.noInterrupt, hloop]
   simp only
   unfold bufSlice
   rw [if_pos ⟨by omega, by omega, by omega⟩]
@@ -1326,7 +1328,7 @@ theorem sbRead_of_fill (c : Consts) (s s1 : SB) (p : Bytes) (n : Nat) (rem : Lis
   refine ⟨{ s1 with pos := min (s1.pos + (p.take n).length) s1.cap }, ?_, ?_, ?_, rfl⟩
   · unfold sbRead
     rw [hfill]
-  · exact { handler := hinv.handler, ready := hinv.ready, flat := hinv.flat, plain := hinv.plain,
+  · exact { handler := hinv.handler, noInterrupt := hinv.noInterrupt, ready := hinv.ready, flat := hinv.flat, plain := hinv.plain,
             valid := hinv.valid, flushDelim := hinv.flushDelim, slice := Or.inr hsl }
   · unfold pendingOf
     simp only [List.length_take]
